@@ -405,3 +405,19 @@ def mvar_stream(rng, n):
         c = rng.choice(ctx)
         out.append(c.replace("{}", mvar_expr(rng), 1).replace("{}", mvar_expr(rng)))
     return out
+
+
+def speculative_error_stream(rng, n):
+    """diagnostics raised while a checkpoint may be live: a position inside a macro call/definition where the lexer
+    lexes speculatively (argument name vs value), then one or two statements or calls with a missing delimiter
+    (each reports a 'missing expected' error), then what decides the speculation (blank + text, '=', ',', ')')"""
+    ctx = ["%m(", "%m(a", "%m(a ", "%m(a=", "%m(1,a", "%m(1, a", "%m(a/*c*/", "%m(a\n", "%macro m(a", "%macro m(a=", "%do %m(a", "%m(%n(a", "\"%m(a",
+           "%let v=%m(a", "%if %m(a", "%put %m(a", "%sysfunc(f(a", "%m(a.", "%m(&a", "%m(a&b"]
+    errs = ["%let x 1;", "%let x;", "%do i 1 %to 2;", "%copy a b;", "%scan(a)", "%substr(a)", "%eval(", "%local / readonly a 1;", "%end x", "%return x",
+            "%upcase a", "%verify a", "%sysevalf 1", "%do %while 1;", "%global / readonly b;", "%let y 2;", "%kverify b,c)", "%qscan(a b)"]
+    tails = [" b)", ")", ",b)", "=1)", " =1)", "/*c*/b)", "\n)", " b", "", " b);", "; b)", " %n)"]
+    out = []
+    for _ in range(n):
+        k = 1 + rng.below(3)
+        out.append(rng.choice(ctx) + "".join(rng.choice(errs) for _ in range(k)) + rng.choice(tails))
+    return out
